@@ -343,6 +343,50 @@ def model_guided_oob(ctx, exe, mexe, rng, budget, stats):
     return len(cases)
 
 
+def adversary_search(ctx, exe, mexe, rng, stats, quick):
+    """adaptive thin-tree adversary run INSIDE the harness against the real heap (it looks at the real
+    structure to choose the next public operation); every history it produces is replayable.  A crash,
+    a reference-map disagreement or a missing end marker turns the recorded history into a case that
+    goes through evaluate() (spec on the real outputs, ASan, structural comparison)."""
+    caps = [34, 60, 100, 144, 200, 377] if quick else [34, 55, 60, 89, 100, 144, 200, 233, 377, 610, 1000]
+    runs = []
+    for cap in caps:
+        for pol in (0, 1, 2):
+            runs.append((cap, 1500 if quick else 6000, rng.randrange(1, 1 << 30), pol))
+    bad_cases = []
+    maxrank = 0
+    for cap, rounds, seed, pol in runs:
+        r = ctx.run(exe, "A %d %d %d %d\n" % (cap, rounds, seed, pol), timeout=300)
+        ops, ended, viol = [], False, None
+        for line in r.out.splitlines():
+            if line.startswith("a "):
+                w = line.split()
+                ops.append(tuple([w[1]] + [int(x) for x in w[2:]]))
+            elif line.startswith("V ") and viol is None:
+                viol = line
+            elif line.startswith("AEND"):
+                ended = True
+                try:
+                    maxrank = max(maxrank, int(line.split()[1]))
+                except (ValueError, IndexError):
+                    ended = False
+        if viol or not ended or r.rc != 0 or r.timed_out:
+            bad_cases.append({"cap": cap, "ops": ops, "dump": False,
+                              "adversary": {"rounds": rounds, "seed": seed, "policy": pol,
+                                            "symptom": viol or (r.sanitizer or "no end marker / rc=%s" % r.rc)[:300]}})
+    stats["adversary_runs"] = len(runs)
+    stats["adversary_max_root_rank"] = maxrank
+    stats["adversary_hits"] = len(bad_cases)
+    if bad_cases:
+        bad_cases.sort(key=lambda c: len(c["ops"]))
+        before = ctx.has_violation()
+        evaluate(ctx, exe, mexe, bad_cases[:2], stats)
+        if not ctx.has_violation() and not before:
+            ctx.violation(bad_cases[0], "adaptive adversary: the real heap misbehaved (%s) but the recorded "
+                                        "history did not reproduce it" % bad_cases[0]["adversary"]["symptom"])
+    return len(runs)
+
+
 def run(ctx):
     rng = ctx.rng
     coq = ctx.coq()
@@ -385,6 +429,7 @@ def run(ctx):
     n = 0
     for i in range(0, len(cases), 2000):
         n += evaluate(ctx, exe, mexe, cases[i:i + 2000], stats)
+    n += adversary_search(ctx, exe, mexe, rng, stats, quick)
     if not ctx.has_violation():
         n += model_guided_oob(ctx, exe, mexe, rng, 3000 if quick and not ctx.is_unshown() else 40000, stats)
     distinct = set()
